@@ -1,10 +1,13 @@
 package props
 
 import (
+	crand "crypto/rand"
 	"encoding/json"
 	"fmt"
+	"io"
 	"math/rand/v2"
 	"sort"
+	"sync"
 	"time"
 
 	"github.com/privacybydesign/gabi"
@@ -362,4 +365,47 @@ func inInts(s []int, v int) bool {
 		}
 	}
 	return false
+}
+
+// faultReader passes the system randomness through, except that the target-th read (counted from 1) is answered with a
+// constant byte pattern: the extreme draws (all ones / all zeros) that a signing run meets with negligible probability.
+type faultReader struct {
+	inner   io.Reader
+	n       int
+	target  int
+	pattern byte
+	hit     bool
+}
+
+func (f *faultReader) Read(p []byte) (int, error) {
+	f.n++
+	if f.n == f.target {
+		for i := range p {
+			p[i] = f.pattern
+		}
+		f.hit = true
+		return len(p), nil
+	}
+	return f.inner.Read(p)
+}
+
+var extremeMu sync.Mutex
+
+// extremeDraws runs f once for every (read number 1..maxReads, pattern all-ones/all-zeros): during the call that one read of
+// the process-wide crypto/rand.Reader is answered with the pattern. f receives a description and a function telling whether the
+// faulted read was reached. Must not be used while other goroutines of the process need genuine randomness semantics decided
+// by an oracle (callers run it in a single-threaded section).
+func extremeDraws(maxReads int, f func(desc string, hit func() bool)) {
+	extremeMu.Lock()
+	defer extremeMu.Unlock()
+	orig := crand.Reader
+	defer func() { crand.Reader = orig }()
+	for target := 1; target <= maxReads; target++ {
+		for _, pat := range []byte{0xFF, 0x00} {
+			fr := &faultReader{inner: orig, target: target, pattern: pat}
+			crand.Reader = fr
+			f(fmt.Sprintf("random read #%d answered with 0x%02X", target, pat), func() bool { return fr.hit })
+			crand.Reader = orig
+		}
+	}
 }
